@@ -246,6 +246,25 @@ def check(case, ctx):
                 raise fail('import:reused-engine', 'an engine holding the OPML source gave different results on later conversions\nfirst html=%r\nsecond html=%r\nmmd=%r\nmmd again=%r'
                            % (e1[-300:], e2[-300:], em[:200], em2[:200]))
             ctx.cls('reused_engine_checked')
+    if meta and case.get('engine_leg') is not None:
+        # an engine whose metadata was queried and edited through the engine API exports the EDITED document: <head>, the metadata outline
+        # and the text all come from the text the engine holds now
+        from lib.worker import FMT
+        w.call('pool', 'init')
+        eid = w.call('enew', ext, src)[1]
+        try:
+            w.call('ehas', eid)
+            w.call('evalue', eid, meta[0][0])
+            newsrc = w.call('eupdate', eid, meta[0][0], 'Final edited value', '0')[1]
+            got = w.call('econv', eid, 'e', FMT['opml'], '')[1]
+        finally:
+            w.call('efree', eid)
+            w.call('pool', 'drain')
+        want = w.convert(newsrc, 'opml', ext, api='e').out
+        if got.rstrip(b'\n') != want.rstrip(b'\n'):
+            raise fail('export:engine-after-metadata-edit', 'OPML exported by an engine after mmd_engine_update_metavalue_for_key(%r) differs from the export of the edited text\nengine=%r\nfresh =%r'
+                       % (meta[0][0], got[:700], want[:700]))
+        ctx.cls('engine_export_after_metadata_edit')
     if case.get('ctl') and b'alpha' in src.lower():
         control_roundtrip(w, ctx, re.sub(rb'(?i)alpha', lambda m: m.group(0)[:2] + (b'\x0c', b'\x1b', b'\x0b')[case['ctl'] % 3] + m.group(0)[2:], src), heads, ext)
     if len(heads) >= 2 and any(b > a for a, b in zip(levels, levels[1:])) and re.search(rb'[&<>"\']', b''.join(n for _, _, n in heads)):
